@@ -104,7 +104,12 @@ func c08grammars(quick bool) []func() *recGrammar {
 	}
 	// one production
 	mk("rec1", 1, func(b *builder) []gfam.LeafFn {
-		leaves := append(wrapAll([]gfam.LeafFn{lit("x"), b.sub(0)}), func() *g.Node { return g.Neg(g.Lit("x")) }, func() *g.Node { return gfam.CapMark(g.Lit("y")) })
+		leaves := append(wrapAll([]gfam.LeafFn{lit("x"), b.sub(0)}), func() *g.Node { return g.Neg(g.Lit("x")) }, func() *g.Node { return gfam.CapMark(g.Lit("y")) },
+			// things that succeed without consuming although they look as if they consumed: a non-empty group
+			// satisfied by the value of a capture that matched nothing, the EOF token, the empty literal
+			func() *g.Node { return g.Grp(gfam.CapMark(g.Grp(g.Lit("x"), '?')), '!') },
+			func() *g.Node { return g.Ref("EOF") },
+			func() *g.Node { return g.Lit("") })
 		var ts []gfam.LeafFn
 		ts = append(ts, gfam.Terms(1, leaves)...)
 		ts = append(ts, gfam.Terms(2, leaves)...)
@@ -131,7 +136,9 @@ func c08grammars(quick bool) []func() *recGrammar {
 	// two productions: P0 from a term set, P1 from a fixed menu
 	mk("rec2", 2, func(b *builder) []gfam.LeafFn {
 		leaves := []gfam.LeafFn{lit("x"), b.sub(0), b.sub(1), func() *g.Node { return g.Grp(g.Lit("x"), '?') }, func() *g.Node { return g.Grp(b.sub(1)(), '?') }, func() *g.Node { return g.Look(b.sub(1)(), '=') }, func() *g.Node { return g.Look(g.Lit("y"), '!') },
-			func() *g.Node { return g.Grp(g.Seq(g.Grp(g.Lit("x"), '?'), g.Grp(g.Lit("y"), '?')), '!') }}
+			func() *g.Node { return g.Grp(g.Seq(g.Grp(g.Lit("x"), '?'), g.Grp(g.Lit("y"), '?')), '!') },
+			func() *g.Node { return g.Grp(g.Seq(gfam.CapMark(g.Grp(g.Lit("x"), '?')), g.Grp(g.Lit("y"), '?')), '!') },
+			func() *g.Node { return g.Ref("EOF") }}
 		var ts []gfam.LeafFn
 		ts = append(ts, gfam.Terms(1, leaves)...)
 		ts = append(ts, gfam.Terms(2, leaves)...)
